@@ -153,6 +153,17 @@ def run(ctx):
         curve = [b'ed', b'sp', b'p2'][i % 3]
         sec = gen_secret(rng, curve)
         judge_key(ctx, rng, curve, sec, n_pass=1 if i % 4 else 2)
+    # keys whose public point has leading zero bytes in a coordinate (one key in 256): found with the reference derivation
+    if ctx.mine(0):
+        for curve in (b'p2', b'sp'):
+            found, d = 0, rng.randrange(1, 2 ** 20)
+            while found < ctx.pick(3, 12) and d < 2 ** 21:
+                d += 1
+                sec = d.to_bytes(32, 'big')
+                if E.public_point(curve, sec)[1] == 0:
+                    found += 1
+                    ctx.count('keys_with_a_short_public_coordinate')
+                    judge_key(ctx, rng, curve, sec, n_pass=1)
     # 64-byte ed25519 secret keys
     from pytezos.crypto.key import Key
     for _ in range(max(1, 8 // ctx.nshards)):
@@ -167,6 +178,7 @@ def run(ctx):
             ctx.violation('C08|from_secret_exponent-raises|ed25519-64', repr(e)[:200], {'curve': 'ed', 'secret': seed.hex()})
     for i in range(nbls):
         judge_key(ctx, rng, b'BL', gen_secret(rng, b'BL'), n_pass=1)
+    ctx.require('keys_with_a_short_public_coordinate', 2)
     # mnemonics
     W = bip39.words()
     for i in range(ctx.pick(40, 1500) // ctx.nshards + 1):
